@@ -54,7 +54,9 @@ def prepare_problem(
     Zone
         Fully initialised zone tree with streams and utilities attached to each node.
     """
-    streams = [] if streams is None else list(streams)
+    # one schema object per listed row: preparation writes each row's resolved zone path back into it, so a row object
+    # listed twice (two identical parallel branches) must not be resolved twice
+    streams = [] if streams is None else [s.model_copy() if isinstance(s, StreamSchema) else s for s in streams]
     utilities = [] if utilities is None else list(utilities)
 
     top_zone_name, top_zone_identifier = _get_validated_zone_info(
